@@ -44,8 +44,7 @@ func (f *FakeBlockCounter) BlockHeightWaiter(blockNumber uint64) (<-chan uint64,
 	defer f.mu.Unlock()
 	f.regs++
 	if blockNumber <= f.height {
-		ch <- blockNumber
-		close(ch)
+		ch <- blockNumber // like the production counters: one value, never closed
 		return ch, nil
 	}
 	f.pending++
@@ -86,8 +85,7 @@ func (f *FakeBlockCounter) Advance(n int) {
 		watchers := append([]*fakeWatcher{}, f.watchers...)
 		f.mu.Unlock()
 		for _, ch := range ws {
-			ch <- h
-			close(ch)
+			ch <- h // buffered; never closed (production counters do not close)
 		}
 		for _, w := range watchers {
 			if w.ctx.Err() != nil {
